@@ -1,10 +1,11 @@
 SPECIFICATION Spec
 CONSTANTS
-  Scen1 <- ScenAT
+  Scen1 <- ScenACT
   Scen2 <- JustNo
   ClearChoices = {FALSE}
   Installs = {TRUE, FALSE}
   ResetsResult = TRUE
+  LateIgnored = TRUE
 CONSTRAINT ExportC
 INVARIANT ResultRight
 INVARIANT Guards
